@@ -80,7 +80,7 @@ def emit(eng, H, res, why, opts):
     if eng.check3() != 'sat':
         res['harness_errors'].append("no model for " + why)
         return
-    m = eng.solver.model()
+    m = eng.model()
     raw = bytearray(rdrdrv.model_bytes(m, H['data']))
     for it in H['items']:
         if it.frame:   # reference semantics: frames are valid; the option run gets wrong checksum bytes when validation is off
@@ -290,7 +290,7 @@ def case_static(eng, H, res, why):
     if eng.check3() != 'sat':
         res['harness_errors'].append("no model for " + why)
         return
-    m = eng.solver.model()
+    m = eng.model()
     pay = rdrdrv.model_bytes(m, H['pay'])
     hdr = bytes([0xD3, len(pay) >> 8, len(pay) & 0xFF])
     bad = hdr + pay + rdrdrv.model_bytes(m, H['c1'])
